@@ -370,3 +370,24 @@ def inherited_namespaces(ctx):
                     ctx.violation(f"{cls.__name__}: wrapped items written as {items}", info)
                 if root.get("{urn:base}code") != "c":
                     ctx.violation(f"{cls.__name__}: attribute code not written in its declared namespace: {root.attrib}", info)
+    # a subclass WITHOUT a Meta of its own: Meta is not inherited - its element / type name is the class name, without
+    # namespace; as the value of a base-typed field it is announced as xsi:type="NPlain"
+    from ..poly_models import NHolder, NPlain
+
+    XSI_TYPE = "{http://www.w3.org/2001/XMLSchema-instance}type"
+    obj = NPlain(name="n", tags=["a"], level=1, more="m")
+    for be in ("native", "lxml"):
+        for nm in (None, {None: "urn:base"}, {"b": "urn:mid"}):
+            ctx.case(("meta-not-inherited", be, repr(nm)))
+            try:
+                root = ET.fromstring(rb.render(obj, xctx, be, ns_map=dict(nm) if nm else None))
+                held = ET.fromstring(rb.render(NHolder(item=obj), xctx, be, ns_map=dict(nm) if nm else None))
+            except Exception as ex:  # noqa: BLE001
+                ctx.violation(f"subclass without Meta: render / re-read failed ({be}): {type(ex).__name__}: {ex}", {"class": "NPlain"})
+                continue
+            got = [e.tag for e in root]
+            if root.tag != "NPlain" or got != ["{urn:base}name", "{urn:base}tags", "{urn:mid}level", "more"]:
+                ctx.violation(f"subclass without Meta written as {root.tag} with children {got}; Meta is not inherited: NPlain with {{urn:base}}name, {{urn:base}}tags, {{urn:mid}}level, more", {"backend": be, "ns_map": repr(nm)})
+            item = held.find("{urn:base}item")
+            if item is None or (item.get(XSI_TYPE) or "").split(":")[-1] != "NPlain":
+                ctx.violation(f"subclass without Meta in a base-typed field announced as {None if item is None else item.get(XSI_TYPE)!r}, its type name is NPlain", {"backend": be, "ns_map": repr(nm)})
